@@ -770,10 +770,22 @@ func solveAll(w *World, obls []*Obligation, timeoutS, seed int) {
 	// again alone (a loaded machine must not turn into an alarm); refutations and "unknown" stand
 	retried := 0
 	for _, o := range obls {
-		if retried >= 6 {
+		if retried >= 5 {
 			break
 		}
-		if o.Expect != "unsat" || o.Result == nil || o.Result.Status != "timeout" || o.KnownFailing || (o.Clause != nil && o.Clause.Withdrawn) {
+		if o.Expect != "unsat" || o.Result == nil || o.KnownFailing || (o.Clause != nil && o.Clause.Withdrawn) {
+			continue
+		}
+		timedOut := o.Result.Status == "timeout"
+		if o.Result.Status == "unknown" {
+			// one solver gave up while the others ran out of time: under load that is a timeout too
+			for _, st := range o.Result.All {
+				if st == "timeout" {
+					timedOut = true
+				}
+			}
+		}
+		if !timedOut {
 			continue
 		}
 		retried++
